@@ -13,3 +13,13 @@ package main
 //@   loop 1
 //@     assumes i >= 0
 //@     invariant done(wg) == done(wg)@pre + $i && len(buf) == n / 8 && fresh(buf)
+
+//@ func main
+//@   requires s >= 0 && n >= 0
+//@   panics only when true
+//@   modifies nothing
+//@   loop 1
+//@     invariant 0 <= i && sent(jobs) == 0 && added(wg) == s
+//@   loop 2
+//@     invariant 0 <= i && i <= s && sent(jobs) == i && added(wg) == s
+//@     invariant forall k int :: {sentval(jobs, k)} 0 <= k && k < i ==> sentval(jobs, k) == k
